@@ -325,6 +325,30 @@ VARSTORE_OK = {
 }
 
 
+def check_dimkey(ctx):
+    """R-DIMKEY: inside `for <key>, <dim> in X.dimensions.items()` a copy of <dim> names its key explicitly (the table key is the dimension's
+    name; what the dimension object remembers as its name can be stale after a rename)."""
+    ctx.rule('R-DIMKEY', 'a dimension copied in a loop over a dimension table is given the loop key (key=<key>), never left to the name stored in the object')
+    n = 0
+    for rp in ('core/_files.py', 'core/_functions.py', 'cmaqfiles/_ioapi.py', 'pncgen.py'):
+        m = ctx.src.mod(rp)
+        for q, fn in sorted(m.functions.items()):
+            for lp in [x for x in ast.walk(fn) if isinstance(x, ast.For) and isinstance(x.target, ast.Tuple) and len(x.target.elts) == 2 and norm(x.iter).endswith('.dimensions.items()')]:
+                kname, vname = norm(lp.target.elts[0]), norm(lp.target.elts[1])
+                for c in ast.walk(lp):
+                    if isinstance(c, ast.Call) and isinstance(c.func, ast.Attribute) and c.func.attr == 'copyDimension' and c.args and norm(c.args[0]) == vname:
+                        n += 1
+                        k = kw(c, 'key') if kw(c, 'key') is not None else (c.args[1] if len(c.args) > 1 else None)
+                        if k is not None and norm(k) == kname:
+                            ctx.ok('R-DIMKEY', '%s@%d' % (q, c.lineno), 'src/PseudoNetCDF/%s %s' % (rp, q), 'key=%s' % kname)
+                        elif k is None:
+                            ctx.violation(Finding('R-DIMKEY', rp, q, api.stmt_of(c), 'the dimension is copied without key=%s: copyDimension then falls back to the name stored in the dimension object, which is the '
+                                                  'creation-time name after a renameDimensions, so the result carries old dimension names while its variables carry the new ones' % kname))
+                        else:
+                            ctx.undec('R-DIMKEY', '%s@%d' % (q, c.lineno), 'src/PseudoNetCDF/%s %s' % (rp, q), 'key=%s is not the loop key' % norm(k))
+    ctx.floor('dimension copies inside dimension-table loops', n, 8)
+
+
 def check_varstore(ctx):
     """R-VARSTORE: results are populated through createVariable/copyVariable (which size arrays from the file dimensions);
     direct stores into a variable table bypass that and are confined to a frozen, reasoned list of sites."""
@@ -383,6 +407,7 @@ def run(ctx):
     check_ncattr(ctx)
     check_axisperm(ctx)
     check_varstore(ctx)
+    check_dimkey(ctx)
     # binary operators: the result file's dimensions are a copy of the left operand's, so every result variable must take its
     # dimension tuple from the left operand's variable
     ctx.rule('R-DIMSRC', 'pncbo: result variables are dimensioned like the variables of the file whose dimensions were copied')
